@@ -322,6 +322,8 @@ class Reconcile:
                         slice = child_parent.get_slice(child_idx, child_off_idx + end, child_field,
                                                        trivia=self.trivia_fst_get)
 
+                        slice.verify()  # the links say nothing about primitives changed in that tree, the copied source must still be what the nodes say
+
                     except Exception:  # verification failed, need to do one AST at a time
                         pass
 
@@ -458,6 +460,8 @@ class Reconcile:
             if nodef:  # FST from different tree, need to verify it before using
                 try:
                     copy = nodef.verify(reparse=False).copy(trivia=self.trivia_fst_get)
+
+                    copy.verify()  # the links say nothing about primitives changed in that tree, the copied source must still be what the node says
 
                 except Exception:  # verification failed, fall through to pure AST
                     pass
